@@ -310,7 +310,7 @@ class C07Runner:
 			rec = sim_process(proj.sc.root, loop_task(self.pool['modules'], lines, None), timeout=240)
 			self.processes += 1
 			if rec['status'] == 'timeout':
-				rec = sim_process(proj.sc.root, loop_task(self.pool['modules'], lines, None), timeout=1200)
+				rec = sim_process(proj.sc.root, loop_task(self.pool['modules'], lines, None), timeout=600)
 				if rec['status'] == 'timeout':
 					self.violation('loop-does-not-terminate', 0, {'lines': len(lines)})
 					return self.result([])
